@@ -49,6 +49,11 @@ TICKET = {
     'inputs': {},
 }
 CODEC_LOOP = dict(LOOP, codec=True)
+# constructed without inputs (all ports optional): later steps still consult `inputs`
+NOINPUT = {
+    'steps': [S([['out_input_get', 'first', 'weight', 1]], ['wait', 1, None, None]), S([['out_input_get', 'second', 'bonus', 10], ['ctxinc', 'i']], ['branch', 'i', {'1': ['wait', 1, None, None]}, ['value', 13]])],
+    'spec': {'inputs': pm.ns({'weight': pm.port(required=False), 'bonus': pm.port(required=False)})},
+}
 WC_CASES = [
     {'outline': [['step', 'a'], ['while', 'p', [['step', 'b'], ['if', [['q', [['step', 'c']]]], [['step', 'd']]]]], ['step', 'a']],
      'behaviour': {'rets': {}, 'preds': {'p': [True, True, True, False], 'q': [True, False, True]}, 'bodies': {'b': [['out', 'o.b', 1]], 'c': [['ctx', 'seen', [1, 2]]]}}},
@@ -73,7 +78,7 @@ def _run_case(case):
 
 def enumerate_cases(tier, scope):
     kmax = int(scope[3])
-    bases = [{'program': LOOP}, {'program': LOOP_FAIL}, {'program': gen.CATALOGUE['waitwait']}, {'program': gen.CATALOGUE['chain']}, {'program': TICKET}, {'program': CODEC_LOOP}] + WC_CASES
+    bases = [{'program': LOOP}, {'program': LOOP_FAIL}, {'program': gen.CATALOGUE['waitwait']}, {'program': gen.CATALOGUE['chain']}, {'program': TICKET}, {'program': CODEC_LOOP}, {'program': NOINPUT}] + WC_CASES
     for base in bases:
         n = _n_entries(base)
         for k in range(1, kmax + 1):
